@@ -523,6 +523,37 @@ func checkSplit(c *Ctx, split *ssa.Function) {
 			}
 		}
 		formula := nPos == 1 && nStart == 1 && nEnd == 1 && nOther == 1
+		// the remaining term ("extra") is the offset of the end mark in the rest, or - at the end of input without an end
+		// mark - len(rest) - len(end), so that adding len(end) again consumes exactly the rest
+		extraOK, extraWhy := true, ""
+		for _, t := range terms {
+			pth := core.Path(t)
+			if t == pos || pth == "len(startMatches[*])" || pth == "len(endMatches[*])" {
+				continue
+			}
+			var edges []ssa.Value
+			if phi, isPhi := t.(*ssa.Phi); isPhi {
+				edges = phi.Edges
+			} else {
+				edges = []ssa.Value{t}
+			}
+			for _, e := range edges {
+				switch x := core.StripConv(e).(type) {
+				case *ssa.Call:
+				case *ssa.BinOp:
+					if x.Op != token.SUB || core.Path(x.Y) != "len(endMatches[*])" {
+						extraOK = false
+						extraWhy = "at the end of input the missing end mark is accounted with " + core.Path(x.Y) + " instead of len(endMatches[*])"
+					}
+				default:
+					extraOK = false
+					extraWhy = "the offset term is neither a search result nor len(rest) - len(end)"
+				}
+			}
+		}
+		R.Check(extraOK, "C17.token", key+"|advance-at-eof", P.InstrPos(r),
+			"without an end mark at the end of input the region runs to the end: extra = len(rest) - len(end)",
+			extraWhy+": a final line comment without newline is consumed one byte short or long, so a byte of it reaches the decoder or the document's last byte is lost", nil)
 		R.Check(formula, "C17.token", key+"|advance", P.InstrPos(r),
 			"consumed length = pos + len(start) + extra + len(end)",
 			"the consumed length is not pos + len(start) + extra + len(end) (terms: "+strings.Join(names, " + ")+"): part of a region would be emitted twice or skipped", nil)
